@@ -219,14 +219,17 @@ func TestCheck(t *testing.T) {
 	}
 	idx := 0
 	// large slice sizes (the rolling checksum tables depend on the window size): sampled positions
-	for bi, S := range []int{1024, 4096, 4100, 16384} {
-		L := 5*S + []int{0, 3, 0, 77}[bi]
+	for bi, S := range []int{1024, 4096, 4100, 16384, 32768, 32772, 65536, 65540} {
+		L := 5*S + []int{0, 3, 0, 77, 0, 100, 5, 100}[bi]
+		if S > 16384 {
+			L = 2*S + []int{0, 3, 0, 77, 0, 100, 5, 100}[bi]
+		}
 		files := []scen.FileSpec{{Name: "big.dat", Size: L, Kind: "random", Seed: uint64(300 + bi)}}
 		for k, p := range []int{0, 1, S - 1, S, S + 1, S + S/2, 2 * S, 3*S + 5, 4*S - 1, 4 * S, L - 1, L} {
 			for _, n := range []int{1, 3, S + 1} {
 				for _, op := range []string{"insert", "remove"} {
 					idx++
-					if !cfg.Mine(idx) || (!cfg.Thorough() && (k+n)%2 == 1) {
+					if !cfg.Mine(idx) || (!cfg.Thorough() && (k+n)%2 == 1) || (!cfg.Thorough() && S > 16384 && k%3 != 1) {
 						continue
 					}
 					do(Case{Files: files, Slice: S, Edit: scen.Damage{Op: op, File: 0, Off: p, Len: n, Seed: uint64(p + n)}, G: 2})
